@@ -87,3 +87,96 @@ def fds(m, meta):
                 gc.collect()
                 if nfd() != base: problems.append(("fd-after-close", tag, base, nfd()))
     return {"reproduced": bool(problems), "input": f"{ops} scenarios (style x file x source kind x method x alpha x k-th PIL call failing)", "observed": [repr(p)[:300] for p in problems[:4]]}
+
+
+def image_iterator_ops(m, meta):
+    """ImageIterator close / __next__ / seek on a real GIF file: open-file count back at its baseline after every way of ending,
+    closed iterators stay closed, seek validates and reports its state errors"""
+    import tests  # noqa: F401
+    from PIL import Image
+    from term_image.exceptions import TermImageError
+    from term_image.image import BlockImage, ImageIterator
+    path = os.path.join(os.environ.get("VERIF_SCRATCH", "/tmp"), f"c11_ops_{os.getpid()}.gif")
+    fr = [Image.new("RGB", (8, 8), c) for c in [(255, 0, 0), (0, 255, 0), (0, 0, 255)]]
+    fr[0].save(path, save_all=True, append_images=fr[1:], duration=100, loop=0)
+    nfd = lambda: len(os.listdir("/proc/self/fd"))
+    problems = []
+    try:
+        image = BlockImage.from_file(path)
+        base = nfd()
+
+        class Boom(Exception):
+            pass
+        for scenario in ("close-before-next", "close-after-next", "double-close", "exhaust", "error-in-render", "attribute-error-in-render", "abandon"):
+            it = ImageIterator(image, 2, "1.1")
+            try:
+                if scenario != "close-before-next":
+                    next(it)
+                if scenario == "exhaust":
+                    for _ in it:
+                        pass
+                if scenario in ("error-in-render", "attribute-error-in-render"):
+                    orig = BlockImage._render_image
+                    exc = Boom("x") if scenario == "error-in-render" else AttributeError("'Image' object has no attribute 'tobytes'")
+
+                    def bad(self, *a, **k):
+                        raise exc
+                    BlockImage._render_image = bad
+                    try:
+                        next(it)
+                        problems.append((scenario, "no error surfaced"))
+                    except (Boom, AttributeError):
+                        pass
+                    except Exception as e:
+                        problems.append((scenario, f"the render error was replaced by {type(e).__name__}"))
+                    finally:
+                        BlockImage._render_image = orig
+                    if hasattr(it, "_animator") or nfd() != base:
+                        problems.append((scenario, f"iterator left open after the error: open files {nfd() - base:+d}"))
+                if scenario == "abandon":
+                    del it
+                    gc.collect()
+                else:
+                    it.close()
+                    if scenario == "double-close":
+                        it.close()
+                    try:
+                        next(it)
+                        problems.append((scenario, "a closed iterator yielded a frame"))
+                    except StopIteration:
+                        pass
+                    except Exception as e:
+                        problems.append((scenario, f"next() on a closed iterator raised {type(e).__name__}"))
+                    try:
+                        it.seek(0)
+                        problems.append((scenario, "seek on a closed iterator accepted"))
+                    except TermImageError:
+                        pass
+            finally:
+                if nfd() != base:
+                    problems.append((scenario, f"open files {nfd() - base:+d} after the iterator ended"))
+        it = ImageIterator(image, 2, "1.1")
+        for pos, exp in ((0, TermImageError), (-1, ValueError), (3, ValueError)):
+            try:
+                it.seek(pos)
+                problems.append(("seek-before-start", pos, "accepted"))
+            except exp:
+                pass
+            except Exception as e:
+                problems.append(("seek-before-start", pos, type(e).__name__))
+        next(it)
+        for pos, exp in ((0, None), (2, None), (3, ValueError), (-1, ValueError)):
+            try:
+                it.seek(pos)
+                if exp is not None:
+                    problems.append(("seek", pos, "accepted"))
+            except Exception as e:
+                if exp is None or not isinstance(e, exp):
+                    problems.append(("seek", pos, type(e).__name__))
+        it.close()
+    finally:
+        try:
+            os.unlink(path)
+        except OSError:
+            pass
+    return {"reproduced": bool(problems), "input": "scripted endings of an ImageIterator on a GIF file", "observed": [repr(p) for p in problems[:4]]}
